@@ -2,7 +2,7 @@
 From Coq Require Import Ascii String List Bool Arith ZArith NArith.
 From PTBase Require Import Exn PyStr PyNum PyVal Fmt FixedFormat.
 From Gen Require Import GenTables GenSections.
-From P Require Import Comb Obj Fields Idem Sections SectionsB Rec SecRocks SecMesh SecGener SecMisc SecParam SecHist SecSel SecShort SecMeshm T2DataIO Whole Xp Example Prog IdemSec IdemSecB IdemMeshm IdemWhole RbReadBack RealStable IdemEx Bin BinEx IdemMesh IdemMeshEx.
+From P Require Import Comb Obj Fields Idem Sections SectionsB Rec SecRocks SecMesh SecGener SecMisc SecParam SecHist SecSel SecShort SecMeshm T2DataIO Whole Xp Example Prog IdemSec IdemSecB IdemMeshm IdemWhole RbReadBack RealStable IdemEx Bin BinEx IdemMesh IdemMeshEx IdemBin IdemBinEx.
 Import ListNotations.
 Open Scope string_scope.
 
@@ -379,3 +379,31 @@ Theorem t2data_write_idem_meshfile_hypotheses_met :
   idem_mesh_hyps true (drop_short example_autough2) (no_mesh example_autough2_order) = true.
 Proof. exact (conj example_tough2_mesh_idem example_autough2_mesh_idem). Qed.
 Print Assumptions t2data_write_idem_meshfile_hypotheses_met.
+
+(** ** ... and grid in the binary pair: the main file up to blanks before the newlines, the records of MESHA / MESHB exactly
+    ([bin_state d (reread d ks)] is what t2data_read_write_binary_mesh reads) *)
+Theorem binary_mesh_records_written_again : forall d d2 RA RB, write_bin d = Ok (RA, RB) ->
+  map r_name (rocks d2) = map r_name (rocks d) -> write_bin (bin_state d d2) = Ok (RA, RB).
+Proof. exact write_bin_again. Qed.
+Print Assumptions binary_mesh_records_written_again.
+Theorem t2data_write_idem_binary_mesh : forall d ks d' fs RA RB,
+  write_files (mk_wcfg 2 None None) d = Ok (d', fs) -> write_bin d = Ok (RA, RB) ->
+  update_sections d = sections d -> main_secs d = map s2l ks -> xprec d = [] ->
+  chain_ok d ks (start_state d) = true -> idem_bin_ok d ks = true ->
+  Forall (istable T0) (prog_file d ks) ->
+  let X := bin_state d (reread d ks) in
+  exists d'' fs', write_files (mk_wcfg 2 None None) X = Ok (d'', fs') /\ Forall2 lpad (f_main fs) (f_main fs') /\
+    f_mesh fs' = None /\ f_pdat fs' = None /\ write_bin X = Ok (RA, RB).
+Proof. exact write_idem_binary. Qed.
+Print Assumptions t2data_write_idem_binary_mesh.
+Theorem t2data_write_idem_binary_mesh_checked : forall strict d ks, idem_bin_hyps strict d ks = true ->
+  exists d' fs RA RB d'' fs', write_files (mk_wcfg 2 None None) d = Ok (d', fs) /\ write_bin d = Ok (RA, RB) /\
+    write_files (mk_wcfg 2 None None) (bin_state d (reread d ks)) = Ok (d'', fs') /\ Forall2 lpad (f_main fs) (f_main fs') /\
+    f_mesh fs' = None /\ f_pdat fs' = None /\ write_bin (bin_state d (reread d ks)) = Ok (RA, RB).
+Proof. exact write_idem_binary_checked. Qed.
+Print Assumptions t2data_write_idem_binary_mesh_checked.
+Theorem t2data_write_idem_binary_mesh_hypotheses_met :
+  idem_bin_hyps true (with_centres (drop_short example_tough2)) (no_mesh example_tough2_order) = true /\
+  idem_bin_hyps true (with_centres (drop_short example_autough2)) (no_mesh example_autough2_order) = true.
+Proof. exact (conj example_tough2_bin_idem example_autough2_bin_idem). Qed.
+Print Assumptions t2data_write_idem_binary_mesh_hypotheses_met.
